@@ -49,7 +49,18 @@ GenericMut == UNION {UNION {LET k == Kind(v.g, t) o == OtherVal(k, v.p[t]) IN
                             IF o = v.p[t] THEN {} ELSE {Pr(v, With(v, t, o)), Pr(With(v, t, o), v)}
                             : t \in (MutTerms(v.g) \ {"id", "type"}) \cap DOMAIN v.p} : v \in GenericVals}
              \cup {Pr(v, v) : v \in GenericVals}
-AllPairs == GenericMut \cup PortPairs \cup TypeLess \cup FullId \cup FullMut \cup Refl \cup OddRefl \cup QueryPairs \cup Mut \cup IdDiff \cup TypeDiff \cup NilFam
+\* a property holding an embedded collection, changed to an unrelated plain list (and back)
+CollToList == UNION {UNION {{Pr(With(BaseV(g, 5), t, Embedded(k, 6)), With(BaseV(g, 5), t, ListOf(<<I1, I2>>))),
+                             Pr(With(BaseV(g, 5), t, ListOf(<<I1, I2>>)), With(BaseV(g, 5), t, Embedded(k, 6)))}
+                            : t \in {"replies", "context", "target"} \cap Terms(Props(g)),
+                              k \in {"Collection", "OrderedCollection", "CollectionPage", "OrderedCollectionPage"}}
+                     : g \in {"Object", "Activity"}}
+\* a list compared with a list of the same length that repeats one of its members
+DupLists == UNION {{Pr(With(BaseV(g, 5), "to", ListOf(<<I1, I2>>)), With(BaseV(g, 5), "to", ListOf(<<I1, I1>>))),
+                    Pr(With(BaseV(g, 5), "to", ListOf(<<I1, I1>>)), With(BaseV(g, 5), "to", ListOf(<<I1, I2>>))),
+                    Pr(With(BaseV(g, 5), "tag", ListOf(<<Note1, Person1>>)), With(BaseV(g, 5), "tag", ListOf(<<Note1, Note1>>))),
+                    Pr(With(BaseV(g, 5), "tag", ListOf(<<Note1, Note1>>)), With(BaseV(g, 5), "tag", ListOf(<<Note1, Person1>>)))} : g \in {"Object", "Activity"}}
+AllPairs == DupLists \cup CollToList \cup GenericMut \cup PortPairs \cup TypeLess \cup FullId \cup FullMut \cup Refl \cup OddRefl \cup QueryPairs \cup Mut \cup IdDiff \cup TypeDiff \cup NilFam
 GenInit == x = NilItem /\ y = NilItem /\ res = FALSE /\ phase = "gen"
 GenNext == FALSE /\ UNCHANGED vars
 ASSUME ndJsonSerialize("c09_pairs.ndjson", SetToSeq(AllPairs))
